@@ -12,7 +12,7 @@ from __future__ import annotations
 from datetime import datetime, timedelta, timezone
 
 from .. import coqterm as T
-from .C18_strings import B
+from .C18_strings import B, queue
 
 CHECKERS = ['Wire/FlagCheck', 'Wire/DateTimeCheck']
 HEADER = ('From PV Require Import Base.Prelude Wire.Lex Wire.Strings Wire.StringsCheck '
@@ -122,7 +122,7 @@ def section(ctx) -> None:
              b'\\*', b'\\\\x', b'NIL']
     stream = small_strings(b'\\aB ]', 4 if quick else 5) + sweep(bases[:4], vals_, not quick) + bases \
         + [mutate(rng, rng.choice(bases), b'\\ aZz$)]') for _ in range(ctx.scale(400, 6000))]
-    stream = thin(ctx, stream, 1500)
+    stream = thin(ctx, stream, 1000)
     cases, values = [], {}
     for buf in stream:
         r = impl_parse(Flag, buf)
@@ -151,13 +151,12 @@ def section(ctx) -> None:
                 if again[0] != 'ok' or again[1].value != v:
                     ctx.failure('flag_roundtrip', f'system flag {alt!r} is not read as {v!r}',
                                 {'input': alt.hex()}, {'kind': 'flag_case'})
-    for i in ctx.run_cases('flag_parse', HEADER, 'bytes * option (bytes * bytes)', cases,
-                           'chk_flag_parse', **SH)[:5]:
-        ctx.disagreement('flag_parse', {'input': stream[i].hex()})
+    queue(ctx, 'flag_parse', HEADER, 'bytes * option (bytes * bytes)', cases, 'chk_flag_parse',
+          lambda i, stream=stream: {'input': stream[i].hex()})
     fvals = list(values) + [b'\\seen', b'\\SEEN', b'\\*', b'\\', b'', b'$x', b'\\a-B', b'\xe9']
     cases = [T.pair(B(v), B(bytes(Flag(v)))) for v in fvals]
-    for i in ctx.run_cases('flag_print', HEADER, 'bytes * bytes', cases, 'chk_flag_print', **SH)[:5]:
-        ctx.disagreement('flag_print', {'value': fvals[i].hex()})
+    queue(ctx, 'flag_print', HEADER, 'bytes * bytes', cases, 'chk_flag_print',
+          lambda i, fvals=fvals: {'value': fvals[i].hex()})
 
     # -------------------------------------------------------------- DateTime
     bases = [b'"01-Jan-2000 01:02:03 +0000" x', b'" 5-feb-2024 1:2:3 -0530"', b'"29-Feb-2024 23:59:59 Z"',
@@ -166,7 +165,7 @@ def section(ctx) -> None:
         + [b'"' + gen_dt_text(rng) + b'"' + rng.choice([b'', b' x', b')']) for _ in range(ctx.scale(800, 30000))] \
         + [mutate(rng, b'"' + gen_dt_text(rng) + b'"', b'0123456789:+-. ZJanFebMar"\\\t') for _ in range(ctx.scale(300, 10000))] \
         + [bytes(DateTime(gen_datetime(rng))) + rng.choice([b'', b' x']) for _ in range(ctx.scale(300, 5000))]
-    stream = thin(ctx, stream, 2500)
+    stream = thin(ctx, stream, 1600)
     cases = []
     nparsed = 0
     for buf in stream:
@@ -195,10 +194,8 @@ def section(ctx) -> None:
         # monitor: the value stored and printed later (INTERNALDATE): constructed form
         monitor_dt_value(ctx, obj.value, 'parsed value')
     ctx.sample({'datetime_input': stream[-1].decode('latin-1')})
-    for i in ctx.run_cases('datetime_parse', HEADER, 'bytes * option (dtup * bytes * bytes)', cases,
-                           'chk_dt_parse', **SH)[:5]:
-        ctx.disagreement('datetime_parse', {'input': stream[i].hex(),
-                                            'impl': repr(impl_dt_parse(stream[i]))})
+    queue(ctx, 'datetime_parse', HEADER, 'bytes * option (dtup * bytes * bytes)', cases, 'chk_dt_parse',
+          lambda i, stream=stream: {'input': stream[i].hex(), 'impl': repr(impl_dt_parse(stream[i]))})
     # constructed values: all months, first/last days, leap days, years 1..9999
     dts = []
     for y in (1, 4, 99, 100, 400, 999, 1000, 1900, 2000, 2023, 2024, 9999):
@@ -214,8 +211,8 @@ def section(ctx) -> None:
         ctx.count(('dtprint', fields(d)))
         cases.append(T.pair(enc_dt(d), B(bytes(DateTime(d)))))
         monitor_dt_value(ctx, d, 'constructed value')
-    for i in ctx.run_cases('datetime_print', HEADER, 'dtup * bytes', cases, 'chk_dt_print', **SH)[:5]:
-        ctx.disagreement('datetime_print', {'fields': list(fields(dts[i]))})
+    queue(ctx, 'datetime_print', HEADER, 'dtup * bytes', cases, 'chk_dt_print',
+          lambda i, dts=dts: {'fields': list(fields(dts[i]))})
     ctx.extra['flagdate'] = {'flag_values': len(values), 'datetime_inputs': len(stream),
                              'datetime_parsed': nparsed, 'datetime_values': len(dts)}
 
